@@ -122,15 +122,14 @@ int main()
         else
         {
             vk::Space sp = vk::parse_space(f);
-            std::vector<int> data(sp.N);
-            for (int i = 0; i < sp.N; i++)
-                data[i] = i;
+            std::vector<int> data = sp.range(); // identity, or the elements given by rng=
             IndexType k = std::stoi(f["k"]);
             bool check = !f.count("check") || f["check"] == "1";
             if (f["cb"] == "kernel")
                 out = run_fn(f["method"], data, vk::KernelD(vk::KernCb{&sp}), k, check, sp);
             else
                 out = run_fn(f["method"], data, vk::PlainD(vk::DistCb{&sp}), k, check, sp);
+            out += sp.foreign_suffix();
         }
         std::cout << out << std::endl;
     }
